@@ -17,7 +17,7 @@ def command_pool(rng, session):
         {"name": "sessioninfo", "p": [0, 0, 0]},
         {"name": "sessioninfo", "p": [0xfe, rng.randrange(256), 0]},
         {"name": "sessioninfo", "p": [0xff, 0, rng.randrange(1 << 32)]},
-        {"name": "setpriv", "p": [rng.choice([0, 2, 3, 4])]},
+        {"name": "setpriv", "p": [rng.choice([0, 1, 1, 2, 3, 4])]},
         {"name": "chassiscontrol", "p": [rng.randrange(6)]},
         {"name": "getsdrrepoinfo"}, {"name": "reservesdr"},
         {"name": "getsdr", "p": [rng.randrange(65536), rng.randrange(65536), rng.randrange(256), rng.randrange(256)]},
@@ -36,6 +36,13 @@ def command_pool(rng, session):
 
 def is_final(a):
     return a in FINAL or (a.startswith("cc:") and int(a[3:]) not in (0xc0, 0xc3))
+
+
+def refused_locally(step):
+    """requests the library must refuse before anything is transmitted: Set Session Privilege Level to Callback
+    (requested level 1h is reserved in IPMI v2.0 table 22-18)"""
+    c = step["cmd"]
+    return c["name"] == "setpriv" and (c.get("p") or [0])[0] % 256 == 1
 
 
 def reference(script, session):
